@@ -92,7 +92,44 @@ def load_case(seed):
                     same = True                   # both refuse the text: nothing to compare
     finally:
         shutil.rmtree(d, ignore_errors=True)
-    return {'text': text, 'seed': seed, 'log': [{'ev': 'init', 'snap': [['', 'a', 'krn', 'K1']]}, {'ev': 'load', 'p': ['', 'a', 'krn'], 'same': same}]}
+    log = [{'ev': 'init', 'snap': [['', 'a', 'krn', 'K1']]}, {'ev': 'load', 'p': ['', 'a', 'krn'], 'same': same}]
+    log += roundtrip_events(text)
+    if seed % 3 == 0:
+        log += roundtrip_events(plain_score(r))
+    return {'text': text, 'seed': seed, 'log': log}
+
+
+def plain_score(r):
+    """a score whose ekern form contains no separator at all: pitch-only notes, bare rests, signatures and barlines"""
+    n = r.choice([1, 1, 2])
+    rows = [['**kern'] * n, [r.choice(gen.CLEFS) for _ in range(n)]]
+    for m in range(1, r.randint(2, 4)):
+        rows.append(['=%d' % m] * n)
+        for _ in range(r.randint(1, 3)):
+            rows.append([r.choice(['c', 'dd', 'E', 'r', 'GG', 'b', '.']) for _ in range(n)])
+    rows.append(['*-'] * n)
+    return '\n'.join('\t'.join(row) for row in rows) + '\n'
+
+
+def roundtrip_events(text):
+    """kern -> ekern (what the converter writes) -> kern (get_kern_from_ekern) -> ekern again: the original ekern; the kern text in
+    between is a kern document (its headers are the plain ones).  Real outputs compared by the harness, logged as one event."""
+    import kernpy as kp
+
+    def k2e(t):
+        d, e = kp.loads(t)
+        if e:
+            return None
+        return kp.dumps(d, spine_types=['**kern'], include=kp.BEKERN_CATEGORIES, encoding=kp.Encoding.eKern)
+    try:
+        e1 = k2e(text)
+        if e1 is None or e1 == '':
+            return []
+        n1 = kp.get_kern_from_ekern(e1)
+        e2 = k2e(n1)
+        return [{'ev': 'roundtrip', 'same': e2 == e1, 'iskern': '**e' not in n1.split('\n')[0]}]
+    except Exception:  # noqa
+        return [{'ev': 'roundtrip', 'same': False, 'iskern': False}]
 
 
 def make_contents(seed):
@@ -134,7 +171,9 @@ def make_contents(seed):
         n1, n2 = kp.get_kern_from_ekern(e1), kp.get_kern_from_ekern(e2)
         d1 = kp.dumps(kp.loads(k1)[0])
         x1 = kp.dumps(kp.loads(k1)[0], **dump_options())
-        table = {'K1': k1, 'K2': k2, 'KBAD': kbad, 'E1': e1, 'E2': e2, 'N1': n1, 'N2': n2, 'D1': d1, 'X1': x1, 'T': 'just some text\n'}
+        table = {'K1': k1, 'K2': k2, 'KBAD': kbad, 'E1': e1, 'E2': e2, 'N1': n1, 'N2': n2, 'D1': d1, 'X1': x1, 'T': 'just some text\n', 'Z': ''}
+        if kp.dumps(kp.loads(k1)[0], **empty_options()) != '':
+            raise MachineryError('the empty selection does not give the empty string')
         if len(set(table.values())) == len(table):
             return table
     raise MachineryError('could not build distinguishable file contents')
@@ -146,6 +185,11 @@ def dump_options():
     C = kp.TokenCategory
     return dict(spine_types=['**kern', '**text'], include=[C.CORE, C.STRUCTURAL, C.BARLINES, C.SIGNATURES, C.LYRICS], exclude=[C.DECORATION, C.CLEF],
                 encoding=kp.Encoding.eKern, spine_ids=[0, 1])
+
+
+def empty_options():
+    """a selection that keeps nothing: a known spine type the document does not have"""
+    return dict(spine_types=['**harm'])
 
 
 TREES = {
@@ -245,6 +289,11 @@ def replay(i):
                         kp.dump(doc1, fpath(root, p))
                 except Exception:  # noqa
                     ok = False
+            elif a['act'] == 'dump_empty':
+                try:
+                    kp.dump(doc1, fpath(root, p), **empty_options())
+                except Exception:  # noqa
+                    ok = False
             elif a['act'] == 'dump_opts':
                 try:
                     if (i + len(log)) % 3 == 0:
@@ -304,7 +353,7 @@ def main():
         run.traces = 1
         for pos, clause in lv[0].fails:
             run.violation({'text': c['text'], 'load_seed': c['seed'], 'clause': clause, 'input': c['text'][:300]},
-                          f'clause {clause}: load(path) and loads(text) differ for the file contents {c["text"][:300]!r}', classes=(), symptom=clause)
+                          f'clause {clause} fails (event {pos} of {[e["ev"] for e in c["log"]]}) for the generated file contents {c["text"][:300]!r}', classes=(), symptom=clause)
         return run.finish()
     if a.replay_case:
         hists = [a.replay_case['case']['history']]
@@ -397,7 +446,7 @@ def main():
             raise MachineryError('Trace_FileCli blocked on a load record')
         for pos, clause in v.fails:
             run.violation({'text': c['text'], 'load_seed': c['seed'], 'clause': clause, 'input': c['text'][:300]},
-                          f'clause {clause}: load(path) and loads(text) differ for the file contents {c["text"][:300]!r}', classes=(), symptom=clause)
+                          f'clause {clause} fails (event {pos} of {[e["ev"] for e in c["log"]]}) for the generated file contents {c["text"][:300]!r}', classes=(), symptom=clause)
         if any(ord(ch) > 127 for ch in c['text']):
             run.nontrivial.add('load:' + str(c['seed']))
     run.note('load_population', len(lcases))
